@@ -47,7 +47,8 @@ def rules(model: Model, tier: str) -> List[RuleResult]:
     ac.ac7_no_inplace_on_apply_outputs(model, fc.backward, R7)
     _ts_gating(fc, T)
     _modes_layout(model, fc, T)
-    return [R1, R2, R3, R4, R5, R6, R7, T]
+    _hy = ac.hygiene_rules(model, ac.get_fncls(model, '_SolveIVP'), PROP, min_copies=5, min_opt=2)
+    return [R1, R2, R3, R4, R5, R6, R7, T, *_hy]
 
 
 def _ts_gating(fc, T: RuleResult):
